@@ -318,7 +318,78 @@ func init() {
 				c.und("id-correlation", fnn, p.Pos(fnPos(f)), "assignment of the response id on the error arm not found")
 			}
 		}
+		c11BatchAndParams(c)
 	})
+}
+
+// c11BatchAndParams: (batch-every-entry) every pool task of a batch runs handleRequest before it can return, so each
+// decodable entry is answered (or is a notification); (param-validated) a parameter value is handed to the handler only
+// after it was decoded into the handler's type and — when a validator is configured — validated.
+func c11BatchAndParams(c *Ctx) {
+	p := c.P
+	if f := p.Func("jsonrpc", "Server", "handleBatchRequest"); f != nil {
+		n := 0
+		for _, s := range sitesOf(f) {
+			if !strings.HasSuffix(s.CalleeName(), "Pool).Go") && !(s.Method != nil && s.Method.Name() == "Go") {
+				continue
+			}
+			for _, a := range s.Args() {
+				for _, task := range funcValues(a, 0) {
+					n++
+					hr := findSite(task, "handleRequest")
+					ok := hr != nil
+					if ok {
+						for _, ret := range returnsOf(task) {
+							if !dominatesInstr(hr.Instr, ret.Ret) {
+								ok = false
+							}
+						}
+					}
+					c.check(ok, "batch-every-entry", "handleBatchRequest pool task", p.Pos(fnPos(task)), "handleRequest dominates every return of the task", "a batch entry's task can finish without calling handleRequest: the entry gets no response and its handler never runs (e.g. entries still queued when the shared deadline expires)")
+					// a non-nil response is always added
+					if ar := findSite(task, "addResponse"); ar == nil {
+						// addResponse is a closure variable: look for the dynamic call
+						found := false
+						for _, t := range sitesOf(task) {
+							if t.CalleeName() == "dynamic" && strings.Contains(term(t.Instr.Common().Value), "addResponse") {
+								found = true
+								okd, miss := everyDisjunctHas(p.mustHoldAt(t.Instr), []string{"!= nil)"})
+								_ = okd
+								_ = miss
+							}
+						}
+						c.check(found, "batch-every-entry", "handleBatchRequest pool task adds its response", p.Pos(fnPos(task)), "the task hands its response to addResponse", "the task no longer adds its response to the batch result")
+					}
+				}
+			}
+		}
+		if n == 0 {
+			c.und("batch-every-entry", "handleBatchRequest", p.Pos(fnPos(f)), "pool task not found")
+		}
+	} else {
+		c.und("batch-every-entry", "Server.handleBatchRequest", "", "anchor not found")
+	}
+	if f := p.Func("jsonrpc", "Server", "parseParam"); f != nil {
+		um := findSite(f, "Unmarshal")
+		k := 0
+		for _, ret := range returnsOf(f) {
+			if !isNilConst(ret.Results[1]) {
+				continue
+			}
+			k++
+			d := p.mustHoldAt(ret.Ret)
+			okU := um != nil && dominatesInstr(um.Instr, ret.Ret)
+			okE, m1 := everyDisjunctHas(d, []string{"^!", "json.Unmarshal(", "!= nil"})
+			okV, m2 := everyDisjunctHas(d, []string{"^!", "s.validator != nil"}, []string{"s.validator == nil"}, []string{"^!", "s.validateParam(", "!= nil"})
+			c.check(okU && okE && okV, "param-validated", "parseParam success", p.Pos(posOf(ret.Ret, f)), "the value was decoded into the handler's type without error and validated when a validator is configured",
+				fmt.Sprintf("a parameter reaches the handler without being decoded into its type and validated (decoded: %v %s; validated: %v %s): e.g. an explicit null skips the type's UnmarshalJSON and the validator, so the handler runs on an unvalidated zero value instead of the request being rejected with -32602", okU && okE, m1, okV, m2))
+		}
+		if k == 0 {
+			c.und("param-validated", "parseParam", p.Pos(fnPos(f)), "no success return found")
+		}
+	} else {
+		c.und("param-validated", "Server.parseParam", "", "anchor not found")
+	}
 }
 
 
